@@ -434,6 +434,9 @@ class SamplerCore:
 
             pool = Pool(self.config.pool)
             return pool.map
+        elif isinstance(self.config.pool, int):
+            # A pool of one worker is plain serial evaluation
+            return map
         else:
             return self.config.pool.map
 
